@@ -25,6 +25,26 @@ def run(ck):
             ck.violation("race.flush-vs-write-callback", {"property": "C10", "scenario": "thread 1: add A, flush (slow write callback); thread 2 meanwhile: add B, flush",
                          "A": hexs(a), "B": hexs(b), "wire_chunks": [hexs(c) for c in chunks], "reason": "concurrent flush corrupted the packet being written"})
     ck.oblige("concurrency probe: flush racing a slow write callback (%d runs)" % len(pm), race_bad == 0, "%d bad" % race_bad)
+    # two readers competing for the last queued message: reader A is parked before its k-th mutex acquisition
+    # inside the read function while reader B pops; each message must go to exactly one reader
+    exe3 = vlib.build_harness(wrap=("pthread_mutex_lock",))
+    L = ["start 1 - 0"]; rp = []
+    for k in (1, 2):
+        for q, ty in (("q", 0x82), ("e", 0x8B)):
+            m = flowgen.upmsg([1], 0, ty, [k, 7])
+            rp.append((k, q, m))
+            L += ["case q%d%s" % (k, q), "debugmode %d" % (1 if q == "q" else 0), "discard q", "discard e", "rx " + hexs(flowgen.frame(m)), "schedread %d %s" % (k, q), "drain " + q]
+    rc, out, err = vlib.run_driver(exe3, "\n".join(L) + "\n", timeout=120)
+    qc = vlib.split_cases(out); rbad = 0
+    for k, q, m in rp:
+        ls = qc.get("q%d%s" % (k, q))
+        got = [l for l in (ls or []) if l.startswith("reader") and not l.endswith("none")]
+        left = [l for l in (ls or []) if l.startswith(q + " ") and not l.endswith("none")]
+        if ls is None or len(got) + len(left) != 1 or (got and got[0].split()[1] != hexs(m)):
+            rbad += 1
+            ck.violation("race.two-readers-one-message", {"property": "C10", "scenario": "one queued message; reader A parked before its %d-th mutex acquisition inside the read function while reader B pops" % k,
+                         "queue": q, "message": hexs(m), "observed": ls, "driver_rc": rc, "stderr": err[-500:], "reason": "the message was not returned to exactly one reader (or a reader crashed)"})
+    ck.oblige("concurrency probe: two readers racing for one queued message (%d forced schedules)" % len(rp), rbad == 0, "%d bad" % rbad)
     ck.coverage.update({"evaluations": side.get("contexts", 0), "distinct_nontrivial": len(side.get("globals", [])),
                         "rule": "all thread-safe public functions and internal threads checked context-sensitively against the guard table (guards from the 'guarded by' comments of bidib_state_intern.h plus the fixed table in the translator); distinct_nontrivial = guarded globals / guarded calls",
                         "samples": [{"global": g, "guard": l} for g, l in list(side.get("guards", {}).items())[:8]], "exhaustive": True})
